@@ -7,7 +7,7 @@ Prints one line per patch; writes benign/RESULTS.json."""
 import json, os, subprocess, sys, tempfile, shutil
 V = os.path.dirname(os.path.dirname(os.path.abspath(__file__)))
 import glob
-patches = sys.argv[1:] or sorted(glob.glob(os.path.join(V, "benign", "*", "patch-*.diff")))
+patches = [os.path.abspath(x) for x in sys.argv[1:]] or sorted(glob.glob(os.path.join(V, "benign", "*", "patch-*.diff")))
 checks = [c["property_id"] for c in json.load(open(os.path.join(V, "MANIFEST.json")))["checks"]]
 only = os.environ.get("CHECKS")
 if only:
